@@ -233,12 +233,22 @@ func (w *diffWorker) program(s0 ref.State, base *mem.Image, stale bool, g *vf.Rn
 		}
 		w.cells[fmt.Sprintf("op%02x:%s", op, modeCell(pre))]++
 		if rp.stopped {
-			// stepping a stopped CPU must keep reporting stopped on both sides
-			for k := 0; k < 2; k++ {
-				r2, a2 := w.rig.stepPrim(mp), w.rig.stepAlt(ma)
+			// a host may keep stepping a stopped CPU: whatever that does, it does the same on both sides
+			// (registers, memory, cycles and the stopped result)
+			for k := 0; k < 4; k++ {
+				pre2 := absPrim(&w.rig.prim)
+				op2 := mp.Peek(uint32(pre2.K)<<16 | uint32(pre2.PC))
+				r2, a2 := w.stepBoth(mp, ma)
+				w.r.Eval(1)
 				if r2.pan == nil && a2.pan == nil && (r2.stopped != a2.stopped) {
 					w.r.Fail("stopped-after-stp", "after STP the two interpreters disagree on the stopped result", nil)
 				}
+				if !w.compareSides(op2, pre2, r2, a2, mp, ma, fmt.Sprintf("step %d after STP", k+1), func() interface{} {
+					return map[string]interface{}{"program_start": s0.String(), "image_seed": base.Seed, "stp_at_step": step, "pre_step_state": pre2.String()}
+				}) {
+					return step, "violation"
+				}
+				w.cells["stepped-after-stp"]++
 			}
 			if sawE[true] && sawE[false] {
 				w.cells["program:crossed-xce"]++
